@@ -1,3 +1,76 @@
-// unit builder: harnesses for sdk/src/builder.rs (included by the cfg(kani) hook at the end of that file)
+// unit builder: sdk/src/builder.rs (included by the cfg(kani) hook at the end of that file)
+// C15 native replay / bounded stand-in through the public API: placeholder -> set_data_hash_exclusions ->
+// update_hash_from_stream -> sign_embeddable; a successful result has exactly the placeholder length.
 #[allow(unused_imports)]
 use super::*;
+
+#[test]
+fn c15_sign_embeddable_size_contract() {
+    use crate::utils::test::test_context;
+    let thorough = std::env::var("VERIF_B_TIER").map(|t| t == "thorough").unwrap_or(false);
+    let mut evals = 0usize;
+    let mut nontrivial = 0usize;
+    let mut counts: std::collections::BTreeMap<String, usize> = std::collections::BTreeMap::new();
+    let formats: &[&str] = if thorough { &["image/jpeg", "application/c2pa", "image/png", "image/tiff"] } else { &["image/jpeg", "application/c2pa"] };
+    let defs = [r#"{"title":"t","assertions":[]}"#, r#"{"title":"a longer title for the manifest definition","assertions":[{"label":"org.example.note","data":{"k":"v"}}]}"#];
+    for format in formats {
+        for def in defs {
+            for n_ranges in 1..=14u64 {
+                for base in [10u64, 70_000, 5_000_000_000] {
+                    evals += 1;
+                    let run = || -> Result<(usize, Result<Vec<u8>>)> {
+                        let mut builder = Builder::from_context(test_context()).with_definition(def)?;
+                        builder.set_intent(BuilderIntent::Create(DigitalSourceType::Empty));
+                        let placeholder = builder.placeholder(format)?;
+                        let mut ex = Vec::new();
+                        for i in 0..n_ranges {
+                            ex.push(HashRange::new(base + i * 1_000, 300));
+                        }
+                        builder.set_data_hash_exclusions(ex)?;
+                        // the asset must contain the excluded ranges; keep it small for the small base only
+                        let len = if base > 1_000_000 { 0 } else { (base + n_ranges * 1_000 + 400) as usize };
+                        if len == 0 {
+                            // ranges beyond any real asset: hashing would fail; set the hash directly instead
+                            let mut dh: crate::assertions::DataHash = builder.find_assertion(crate::assertions::DataHash::LABEL)?;
+                            dh.set_hash(vec![7u8; 32]);
+                            builder.definition.assertions.retain(|a| !a.label.starts_with(crate::assertions::DataHash::LABEL));
+                            builder.add_assertion(crate::assertions::DataHash::LABEL, &dh)?;
+                        } else {
+                            let mut stream = std::io::Cursor::new(vec![7u8; len]);
+                            builder.update_hash_from_stream(format, &mut stream)?;
+                        }
+                        Ok((placeholder.len(), builder.sign_embeddable(format)))
+                    };
+                    match run() {
+                        Err(e) => {
+                            // set-up step failed: nothing to check
+                            let c = counts.entry("setup_failed".to_string()).or_insert(0);
+                            *c += 1;
+                            if *c <= 2 {
+                                println!("VERIF-B-SAMPLE set-up failed for format={format} ranges={n_ranges} base={base}: {e}");
+                            }
+                        }
+                        Ok((ph, Err(_))) => {
+                            let _ = ph;
+                            nontrivial += 1; // signing refused: allowed by the statement
+                        }
+                        Ok((ph, Ok(v))) => {
+                            nontrivial += 1;
+                            if v.len() != ph {
+                                let k = if v.len() > ph { "sign_embeddable.longer_than_placeholder" } else { "sign_embeddable.shorter_than_placeholder" };
+                                let c = counts.entry(k.to_string()).or_insert(0);
+                                *c += 1;
+                                if *c <= 3 {
+                                    println!("VERIF-B-VIOLATION key={k} input=format={format} ranges={n_ranges} base_offset={base} placeholder={ph} signed={}", v.len());
+                                }
+                            }
+                        }
+                    }
+                }
+            }
+        }
+    }
+    let setup_failed = counts.remove("setup_failed").unwrap_or(0);
+    println!("VERIF-B-SAMPLE violation classes this run: {:?}; set-up failures: {setup_failed}", counts);
+    println!("VERIF-B unit=builder test=c15_sign_embeddable_size_contract evaluations={evals} nontrivial={nontrivial} exhaustive=true domain=formats {:?} x 2 manifest definitions x 1..=14 exclusion ranges x base offsets {{10, 70000, 5e9}}", formats);
+}
